@@ -44,7 +44,7 @@ RULE = (
     "fills which column.  For num_samples = 2 the rows must depend on disjoint sets of draws (independence) and each "
     "has that distribution.  distinct = (descriptor, flags); non-trivial = >= 2 symbolic parameters."
 )
-BOUNDS = "categorical inputs with <= 3 categories, <= 4 variables, K <= 2, sum layers of arity 1-3 (dense, mixing, CP-T after optimisation), Hadamard and Kronecker products, structural zeros in inputs and weights, all 4 flag pairs, num_samples in {1,2}"
+BOUNDS = "fixed list + (thorough) ~100 random normalised region-graph circuits; categorical inputs with <= 3 categories, <= 4 variables, K <= 2, sum layers of arity 1-3 (dense, mixing, CP-T after optimisation), Hadamard and Kronecker products, structural zeros in inputs and weights, all 4 flag pairs, num_samples in {1,2}"
 OUTSIDE = "continuous (Gaussian) and binomial inputs (their samplers are stubs without a density model), convergence rates of empirical frequencies (the exact distribution is decided instead), multi-output circuits (the query returns output 0 unit 0 only)"
 ASSUMPTIONS = [
     "aten.multinomial(p) returns category k with probability p[k] / sum(p), independently per row and call (contract of the stub)",
@@ -107,6 +107,16 @@ def cases(tier, seed):
     allc = _all(tier)
     out = []
     flags = circuit_check.FLAGS
+    if tier != "quick":
+        # random normalised region-graph circuits (fixed generator seed): <= 4 binary / ternary variables
+        extra = []
+        for c in families.random_members(4001, 160, normalized=True):
+            nv = c.get("nvars") or (c["shape"][0] * c["shape"][1] * c["shape"][2])
+            if nv <= 4 and not c.get("explicit"):
+                extra.append(c)
+        for i, c in enumerate(extra):
+            f, o = flags[i % 4]
+            out.append({"circuit": c, "fold": f, "optimize": o, "N": 1})
     for i, c in enumerate(allc):
         if tier == "quick":
             fl = [flags[(i + seed) % 4], flags[(i + seed + 3) % 4]] if c["kind"] != "zeros" else flags
